@@ -417,16 +417,16 @@ pub fn sets(ctx: &Ctx) -> Vec<CaseSet> {
     let nofast = ctx.nofast;
     let mut out = Vec::new();
     let tb1 = tb.clone();
-    out.push(CaseSet::new("concatenation", ctx.size(8_000, 500_000), Box::new(move |rep, rng, _| concat_case(rep, rng, &tb1, nofast))));
+    out.push(CaseSet::new("concatenation", ctx.size(32_000, 2_000_000), Box::new(move |rep, rng, _| concat_case(rep, rng, &tb1, nofast))));
     let tb2 = tb.clone();
-    out.push(CaseSet::new("trivia-metamorphic", ctx.size(10_000, 600_000), Box::new(move |rep, rng, _| metamorphic_case(rep, rng, &tb2, nofast))));
+    out.push(CaseSet::new("trivia-metamorphic", ctx.size(40_000, 2_400_000), Box::new(move |rep, rng, _| metamorphic_case(rep, rng, &tb2, nofast))));
     let tb3 = tb.clone();
     let mut cfg = GenCfg::default_dialect();
     cfg.max_depth = 3;
     let cfg = Arc::new(cfg);
     out.push(CaseSet::new(
         "termination-and-histories",
-        ctx.size(10_000, 600_000),
+        ctx.size(40_000, 2_400_000),
         Box::new(move |rep, rng, _| {
             let (input, q, tag) = crate::props::c06::gen_input(rng, &tb3, &cfg, 300);
             let q = if rng.chance(1, 3) { Q::from_index(rng.below(N_Q)) } else { q };
